@@ -6,7 +6,7 @@ RULE = ("blocks: programs dominated by Sub{}, tuplets {..}L / Div{..}L and chord
         "one another and in loops, all length forms incl. default), each followed by a sentinel note; judged by Spec.Core.sem on the decoded notes "
         "(start ticks, durations, sentinel position) and by the time pointer after the program (PRINT(TIME)-free: the harness reads the track state). "
         "non-trivial = distinct decoded note streams of programs containing >= 1 block with >= 2 elements")
-ASSUMPTIONS = ["chords and Sub are not placed inside tuplets by the generator (the lexer counts chord members as tuplet elements: language restriction)",
+ASSUMPTIONS = ["inside a tuplet every member of a chord is one counted element (the lexer counts note tokens; Spec.Core.countElem says the same); Sub is not placed inside tuplets by the generator",
                "a Sub body does not switch tracks (the pointer restored is the current track's)"]
 TRUSTED = ["Spec.Core.sem / countElems are my reading of the block laws"]
 
@@ -17,10 +17,10 @@ def gen_blocky(rng, depth):
             x = rng.random()
             if d > 0 and x < 0.2 and not in_div: out.append(('sub', body(d - 1)))
             elif d > 0 and x < 0.45: out.append(('div', body(d - 1, True), mml.gen_len(rng), rng.choice(['{', 'D'])))
-            elif d > 0 and x < 0.6 and not in_div:
-                b = [mml.gen_note(rng, 0, False) for _ in range(rng.randrange(1, 4))]
+            elif d > 0 and x < 0.6:
+                b = [mml.gen_note(rng, 0, in_div) for _ in range(rng.randrange(1, 4))]
                 b = [c for c in b if c[0] == 'note'] or [('note', 'c', 0, False, None, None, None, None, None)]
-                L = mml.gen_len(rng)
+                L = mml.gen_len(rng) if not in_div else None      # inside a tuplet: the tuplet's share; every member is one counted element
                 if L is not None and (L[0][0] or L[0][1] is None): L = ((False, rng.choice([1, 2, 4, 8]), L[0][2]), L[1])
                 out.append(('chord', b, L, rng.choice([None, None, 50, 100]), rng.choice([None, None, 77])))
             elif d > 0 and x < 0.7:
